@@ -323,4 +323,15 @@ theorem be8_append_inj {a b : Nat} {r r' : List UInt8} (ha : a < 2 ^ 64) (hb : b
   have h1 := List.append_inj h (by simp)
   exact ⟨be8_inj ha hb h1.1, h1.2⟩
 
+/-! ### difficulty cap -/
+
+theorem capTo_eq_min (d : Nat) : capTo 24 d = capped d := by
+  unfold capTo capped; rw [Nat.min_def]; split <;> split <;> omega
+
+theorem capTo_idem (c d : Nat) : capTo c (capTo c d) = capTo c d := by
+  unfold capTo
+  by_cases h : d > c
+  · simp [h]
+  · simp [h]
+
 end EphVerif.C19L
